@@ -123,7 +123,7 @@ package bgp
 //@ props C05 C04
 
 //@ func validatePathAttributeFlags
-//@   modifies nothing
+//@   inline
 //@ func getErrorHandlingFromPathAttribute
 //@   tag C05 C06
 //@   modifies nothing
@@ -235,6 +235,7 @@ package bgp
 //@ func IsExtendedMessageSerialization
 //@   pure
 //@   modifies nothing
+//@   ensures len(options) == 0 ==> !result
 //@ func isAttributePresent
 //@   pure
 //@   modifies nothing
@@ -544,3 +545,255 @@ package bgp
 //@ func NewCapMultiProtocol
 //@   modifies nothing
 //@   ensures result != nil && fresh(result) && result.CapValue == rf
+
+// =============================================================================================
+// C04 — encode and decode are mutually inverse and agree on framing (proof harnesses: real Go functions, built
+// only with the verif tag, that compose the real encoder and decoder; verified with the callees inlined)
+// =============================================================================================
+//@ props C04
+
+// The generic attribute header: for every flags/type pair the decoder accepts and every value of up to 65535
+// octets, decode(encode(value)) gives back the type, the value length and the value octets, and the length the
+// decoded attribute reports (Len) is the number of octets emitted; the extended-length form is used exactly
+// when the flag was set or the value does not fit one octet.
+//@ func verifRoundTripAttrHeader
+//@   requires p != nil && len(value) <= 65535
+//@   requires validatePathAttributeFlags(p.Type, p.Flags) == ""
+//@   inline-calls
+//@   modifies nothing
+//@   ensures result0
+//@   ensures len(result1) == len(value) && (forall i int :: 0 <= i && i < len(value) ==> result1[i] == value[i])
+func verifRoundTripAttrHeader(p *PathAttribute, value []byte) (bool, []byte) {
+	buf, err := p.Serialize(value)
+	if err != nil {
+		return false, nil
+	}
+	q := &PathAttribute{}
+	v, err := q.DecodeFromBytes(buf)
+	if err != nil {
+		return false, nil
+	}
+	ext := p.Flags&BGP_ATTR_FLAG_EXTENDED_LENGTH != 0 || len(value) > 255
+	hdr := 3
+	if ext {
+		hdr = 4
+	}
+	ok := q.Type == p.Type && int(q.Length) == len(value) && q.Len() == len(buf) && len(buf) == hdr+len(value) &&
+		(q.Flags&BGP_ATTR_FLAG_EXTENDED_LENGTH != 0) == ext && q.Flags&^BGP_ATTR_FLAG_EXTENDED_LENGTH == p.Flags&^BGP_ATTR_FLAG_EXTENDED_LENGTH
+	return ok, v
+}
+
+// Fixed-size attributes: an attribute whose Length field matches its content (as the constructors and the
+// decoder leave it) reports, through Len, exactly the octets Serialize emits, and decoding them gives the
+// same value back.
+//@ func verifRoundTripOrigin
+//@   requires a != nil && a.Length == 1 && validatePathAttributeFlags(a.Type, a.Flags) == ""
+//@   inline-calls
+//@   modifies nothing
+//@   ensures result
+func verifRoundTripOrigin(a *PathAttributeOrigin) bool {
+	buf, err := a.Serialize()
+	if err != nil {
+		return false
+	}
+	b := &PathAttributeOrigin{}
+	if err := b.DecodeFromBytes(buf); err != nil {
+		return false
+	}
+	return b.Value == a.Value && b.Type == a.Type && b.Flags == a.Flags && b.Length == a.Length && a.Len() == len(buf) && b.Len() == len(buf)
+}
+
+//@ func verifRoundTripMED
+//@   requires a != nil && a.Length == 4 && validatePathAttributeFlags(a.Type, a.Flags) == ""
+//@   inline-calls
+//@   modifies nothing
+//@   ensures result
+func verifRoundTripMED(a *PathAttributeMultiExitDisc) bool {
+	buf, err := a.Serialize()
+	if err != nil {
+		return false
+	}
+	b := &PathAttributeMultiExitDisc{}
+	if err := b.DecodeFromBytes(buf); err != nil {
+		return false
+	}
+	return b.Value == a.Value && b.Type == a.Type && b.Flags == a.Flags && b.Length == a.Length && a.Len() == len(buf) && b.Len() == len(buf)
+}
+
+//@ func verifRoundTripLocalPref
+//@   requires a != nil && a.Length == 4 && validatePathAttributeFlags(a.Type, a.Flags) == ""
+//@   inline-calls
+//@   modifies nothing
+//@   ensures result
+func verifRoundTripLocalPref(a *PathAttributeLocalPref) bool {
+	buf, err := a.Serialize()
+	if err != nil {
+		return false
+	}
+	b := &PathAttributeLocalPref{}
+	if err := b.DecodeFromBytes(buf); err != nil {
+		return false
+	}
+	return b.Value == a.Value && b.Type == a.Type && b.Flags == a.Flags && b.Length == a.Length && a.Len() == len(buf) && b.Len() == len(buf)
+}
+
+//@ func verifRoundTripAtomicAggregate
+//@   requires a != nil && a.Length == 0 && validatePathAttributeFlags(a.Type, a.Flags) == ""
+//@   inline-calls
+//@   modifies nothing
+//@   ensures result
+func verifRoundTripAtomicAggregate(a *PathAttributeAtomicAggregate) bool {
+	buf, err := a.Serialize()
+	if err != nil {
+		return false
+	}
+	b := &PathAttributeAtomicAggregate{}
+	if err := b.DecodeFromBytes(buf); err != nil {
+		return false
+	}
+	return b.Type == a.Type && b.Flags == a.Flags && b.Length == a.Length && a.Len() == len(buf) && b.Len() == len(buf)
+}
+
+// The constructors establish the Length the harnesses above assume.
+//@ func NewPathAttributeOrigin
+//@   modifies nothing
+//@   ensures result != nil && fresh(result) && result.Length == 1 && result.Value == value && result.Type == BGP_ATTR_TYPE_ORIGIN
+//@ func NewPathAttributeMultiExitDisc
+//@   modifies nothing
+//@   ensures result != nil && fresh(result) && result.Length == 4 && result.Value == value && result.Type == BGP_ATTR_TYPE_MULTI_EXIT_DISC
+//@ func NewPathAttributeLocalPref
+//@   modifies nothing
+//@   ensures result != nil && fresh(result) && result.Length == 4 && result.Value == value && result.Type == BGP_ATTR_TYPE_LOCAL_PREF
+//@ func NewPathAttributeAtomicAggregate
+//@   modifies nothing
+//@   ensures result != nil && fresh(result) && result.Length == 0 && result.Type == BGP_ATTR_TYPE_ATOMIC_AGGREGATE
+
+//@ func (*BGPHeader).Serialize
+//@   requires msg != nil
+//@   modular
+//@   modifies nothing
+//@   loop 0 invariant len(buf) == 19 && fresh(buf) && __iter + 1 <= 16 && (forall k int :: 0 <= k && k <= __iter ==> buf[k] == 255)
+//@   ensures result1 == nil && len(result0) == 19 && fresh(result0) && (forall k int :: 0 <= k && k < 16 ==> result0[k] == 255)
+//@   ensures result0[0] == 255 && result0[1] == 255 && result0[2] == 255 && result0[3] == 255 && result0[4] == 255 && result0[5] == 255 && result0[6] == 255 && result0[7] == 255
+//@   ensures result0[8] == 255 && result0[9] == 255 && result0[10] == 255 && result0[11] == 255 && result0[12] == 255 && result0[13] == 255 && result0[14] == 255 && result0[15] == 255
+//@   ensures int(result0[16]) * 256 + int(result0[17]) == int(msg.Len) && result0[18] == msg.Type
+// The 19-octet message header: decode(encode(h)) == h for every length the decoder accepts.
+//@ func verifRoundTripBGPHeader
+//@   requires h != nil
+//@   inline-calls
+//@   modifies nothing
+//@   ensures result
+func verifRoundTripBGPHeader(h *BGPHeader) bool {
+	if int(h.Len) < BGP_HEADER_LENGTH {
+		return true
+	}
+	buf, err := h.Serialize()
+	if err != nil {
+		return false
+	}
+	g := &BGPHeader{}
+	if err := g.DecodeFromBytes(buf); err != nil {
+		return false
+	}
+	return len(buf) == BGP_HEADER_LENGTH && g.Len == h.Len && g.Type == h.Type
+}
+
+// NOTIFICATION and ROUTE-REFRESH bodies: decode(encode(m)) == m.
+//@ func (*BGPNotification).Serialize
+//@   requires msg != nil && len(msg.Data) <= 65535
+//@   modifies nothing
+//@   ensures result1 == nil && len(result0) == 2 + len(msg.Data) && result0[0] == msg.ErrorCode && result0[1] == msg.ErrorSubcode
+//@   ensures forall i int :: 0 <= i && i < len(msg.Data) ==> result0[2+i] == msg.Data[i]
+//@ func (*BGPRouteRefresh).Serialize
+//@   requires msg != nil
+//@   modifies nothing
+//@   ensures result1 == nil && len(result0) == 4
+//@ func (*BGPKeepAlive).Serialize
+//@   modifies nothing
+//@   ensures result1 == nil && len(result0) == 0
+//@ func verifRoundTripNotification
+//@   requires n != nil && len(n.Data) <= 65535
+//@   inline-calls
+//@   modifies nothing
+//@   ensures result0
+//@   ensures len(result1) == len(n.Data) && (forall i int :: 0 <= i && i < len(n.Data) ==> result1[i] == n.Data[i])
+func verifRoundTripNotification(n *BGPNotification) (bool, []byte) {
+	buf, err := n.Serialize()
+	if err != nil {
+		return false, nil
+	}
+	g := &BGPNotification{}
+	if err := g.DecodeFromBytes(buf); err != nil {
+		return false, nil
+	}
+	return g.ErrorCode == n.ErrorCode && g.ErrorSubcode == n.ErrorSubcode && len(buf) == 2+len(n.Data), g.Data
+}
+
+//@ func verifRoundTripRouteRefresh
+//@   requires r != nil
+//@   inline-calls
+//@   modifies nothing
+//@   ensures result
+func verifRoundTripRouteRefresh(r *BGPRouteRefresh) bool {
+	buf, err := r.Serialize()
+	if err != nil {
+		return false
+	}
+	g := &BGPRouteRefresh{}
+	if err := g.DecodeFromBytes(buf); err != nil {
+		return false
+	}
+	return len(buf) == 4 && g.AFI == r.AFI && g.SAFI == r.SAFI && g.Demarcation == r.Demarcation
+}
+
+// Message framing for KEEPALIVE, NOTIFICATION and ROUTE-REFRESH: the length field of the emitted header is the
+// number of octets emitted, the type is the message's, and a message over the session's limit is refused.
+//@ func verifFraming
+//@   inline
+func verifFraming(msg *BGPMessage) bool {
+	typ := msg.Header.Type
+	full, err := msg.Serialize()
+	if err != nil {
+		return true
+	}
+	h := &BGPHeader{}
+	if err := h.DecodeFromBytes(full); err != nil {
+		return false
+	}
+	return int(h.Len) == len(full) && h.Type == typ && len(full) <= BGP_MAX_MESSAGE_LENGTH
+}
+
+//@ func verifFramingKeepAlive
+//@   requires msg != nil && msg.Header.Len == 0 && typeOf(msg.Body) == (*BGPKeepAlive) && msg.Body.(*BGPKeepAlive) != nil
+//@   inline-calls
+//@   modifies msg.Header.Len
+//@   ensures result
+func verifFramingKeepAlive(msg *BGPMessage) bool { return verifFraming(msg) }
+
+//@ func verifFramingNotification
+//@   requires msg != nil && msg.Header.Len == 0 && typeOf(msg.Body) == (*BGPNotification) && msg.Body.(*BGPNotification) != nil && len(msg.Body.(*BGPNotification).Data) <= 65535
+//@   inline-calls
+//@   modifies msg.Header.Len
+//@   ensures result
+func verifFramingNotification(msg *BGPMessage) bool { return verifFraming(msg) }
+
+//@ func verifFramingRouteRefresh
+//@   requires msg != nil && msg.Header.Len == 0 && typeOf(msg.Body) == (*BGPRouteRefresh) && msg.Body.(*BGPRouteRefresh) != nil
+//@   inline-calls
+//@   modifies msg.Header.Len
+//@   ensures result
+func verifFramingRouteRefresh(msg *BGPMessage) bool { return verifFraming(msg) }
+
+// The plain IP prefix NLRI: Len reports exactly the octets Serialize emits (1 length octet + the prefix octets).
+//@ func verifLenIPAddrPrefix
+//@   requires a != nil
+//@   inline-calls
+//@   modifies nothing
+//@   ensures result
+func verifLenIPAddrPrefix(a *IPAddrPrefix) bool {
+	if !a.Prefix.IsValid() {
+		return true
+	}
+	buf, err := a.Serialize()
+	return err == nil && len(buf) == a.Len()
+}
